@@ -71,6 +71,11 @@ def task_truncgrid(ctx, col, shard):
     enum_search(ctx, col, (s for i, s in enumerate(hist.trunc_grid_specs()) if i % NSHARDS == shard), lambda s: execute(ctx, s))
 
 
+def task_bigoperand(ctx, col, shard):
+    specs = list(hist.big_operand_specs())
+    enum_search(ctx, col, (s for i, s in enumerate(specs) if i % NSHARDS == shard), lambda s: execute(ctx, s))
+
+
 def task_random(ctx, col, shard, n, max_ops):
     hyp_search(ctx, col, hist.st_array_history(max_ops=max_ops), lambda s: execute(ctx, s), shard_seed(ctx, shard), n)
 
@@ -83,5 +88,6 @@ def tasks(ctx):
     for sh in range(NSHARDS):
         t.append((task_enum, dict(shard=sh, L=L)))
         t.append((task_truncgrid, dict(shard=sh)))
+        t.append((task_bigoperand, dict(shard=sh)))
         t.append((task_random, dict(shard=sh, n=ctx.pick(600, 2500), max_ops=ctx.pick(10, 40))))
     return t
